@@ -65,7 +65,13 @@ class TwistedServer(DatagramProtocol):
     def datagramReceived(self, datagram, addr):
         """ private called when a datagram is receeived from addr
         """
-        if addr[0] in self.ctxt.blocklist:
+        host = addr[0]
+        if host.startswith("::ffff:"):
+            # an IPv4 peer of a dual stack ("::") socket is reported
+            # as an IPv4-mapped IPv6 address
+            host = host[7:]
+
+        if host in self.ctxt.blocklist or addr[0] in self.ctxt.blocklist:
             return
 
         try:
